@@ -1,7 +1,8 @@
 (* C10 correspondence: cases observed on the real db.HybridLogicalVector API (and the hex helpers of
    base/util.go) by harness/db/verif_c10_test.go are re-evaluated here on the model with vm_compute.
    Source names are interned by the harness (0 = the empty name); maps are compared extensionally. *)
-From SG Require Export Base.Prelude Base.Bytes C10.AMap C10.HLV C10.Replica C10.HLVCodec.
+From SG Require Export Base.Prelude Base.Bytes C10.AMap C10.HLV C10.Replica C10.HLVCodec
+                       C10.HLVUpdate C10.HLVCompact C10.HLVJson C10.HLVLegacy.
 Open Scope N_scope.
 
 Definition H := mkH.
@@ -48,7 +49,24 @@ Inductive case :=
 | CMarshal (v : svec) (j : jvec)                      (* MarshalJSON, fields of the JSON object *)
 | CUnmarshal (j : jvec) (r : option svec)             (* UnmarshalJSON into a fresh vector *)
 | CWirePrint (v : svec) (rev : list N) (history : list N)   (* GetCurrentVersionString, ToHistoryForHLV (entries in the order used) *)
-| CWireParse (inp : list N) (r : option (svec * list (list N))).   (* extractHLVFromBlipString *)
+| CWireParse (inp : list N) (r : option (svec * list (list N)))    (* extractHLVFromBlipString *)
+(* ---- deepening round ---- *)
+(* compactWithValue(c) on h gave r *)
+| CCompact (h : hlv) (c : N) (r : hlv)
+(* UpdateWithIncomingHLV(local = hl, incoming = hi): for every local version p of ps, does the result still
+   dominate p -- against the formula [keptb] of the general update lemma and against the model of the update *)
+| CKept (hl hi : hlv) (ps : list (N * N)) (flags : list bool)
+(* the same for one local vector against a list of incoming vectors (flags row-major: per incoming vector, per version) *)
+| CKeptRow (hl : hlv) (his : list hlv) (ps : list (N * N)) (flags : list bool)
+(* MarshalJSON: the vector, the fields read back from the bytes, the bytes *)
+| CMarshalBytes (v : svec) (j : jvec) (out : list N)
+(* UnmarshalJSON on bytes MarshalJSON produced *)
+| CUnmarshalBytes (inp : list N) (r : option svec)
+(* LegacyRevToRevTreeEncodedVersion (value or error) and GetGenerationFromEncodedVersionValue of the value *)
+| CLegacyRev (rev : list N) (r : option N) (gen : N)
+(* rev + history properties built by buildRevHistory / blipRevMessageProperties for a legacy peer (lg = revID ::
+   revTreeHistory, the maps ranged over in list order) and what GetHLVFromRevMessage made of them *)
+| CWireLegacy (v : svec) (lg : list (list N)) (rev hist : list N) (r : option (svec * list (list N))).
 
 Definition status_code (s : status) : N :=
   match s with NoConflict => 1 | Conflict => 2 | AlreadyPresent => 3 end.
@@ -141,6 +159,17 @@ Definition check (c : case) : bool :=
   | CUnmarshal j r => option_eqb svec_eqb (unmarshal j) r
   | CWirePrint v rev hist => bytes_eqb (cv_string v) rev && check_history_string v hist
   | CWireParse inp r => option_eqb (fun a b => svec_eqb (fst a) (fst b) && list_eqb bytes_eqb (snd a) (snd b)) (extract_hlv inp) r
+  | CCompact h c r => check_compact h c r
+  | CKept hl hi ps flags =>
+      list_eqb Bool.eqb (map (keptb hl hi) ps) flags &&
+      list_eqb Bool.eqb (map (dominates (update_with_incoming hl hi)) ps) flags
+  | CKeptRow hl his ps flags =>
+      list_eqb Bool.eqb (flat_map (fun hi => map (keptb hl hi) ps) his) flags &&
+      list_eqb Bool.eqb (flat_map (fun hi => map (dominates (update_with_incoming hl hi)) ps) his) flags
+  | CMarshalBytes v j out => check_marshal_bytes v j out
+  | CUnmarshalBytes inp r => option_eqb svec_eqb (unmarshal_bytes inp) r
+  | CLegacyRev rev r gen => check_legacy rev r gen
+  | CWireLegacy v lg rev hist r => check_wire_legacy v lg rev hist r
   end.
 
 Definition mismatches (cs : list case) : list N := failing check cs.
